@@ -109,12 +109,12 @@ def make_config(policy):
     return cfg
 
 
-def new_path(policy=("collect",), delimiter=",", quotechar='"', printer=True):
+def new_path(policy=("collect",), delimiter=",", quotechar='"', printer=True, print_default=False):
     from csvpath import CsvPath
     from csvpath.util.printer import TestPrinter
 
     cfg = make_config(policy)
-    p = CsvPath(config=cfg, delimiter=delimiter, quotechar=quotechar, print_default=False)
+    p = CsvPath(config=cfg, delimiter=delimiter, quotechar=quotechar, print_default=print_default)
     tp = None
     if printer:
         tp = TestPrinter()
@@ -152,11 +152,11 @@ def observe(p, tp=None, lines=None, exc=None, stdout=None):
     return o
 
 
-def run_csvpath(text, method="collect", policy=("collect",), delimiter=",", quotechar='"', nexts=None, steps=None):
+def run_csvpath(text, method="collect", policy=("collect",), delimiter=",", quotechar='"', nexts=None, steps=None, print_default=False):
     """Run one csvpath text (with the file path embedded) on a fresh CsvPath.
     method: collect | next | fast_forward.  nexts: for collect(nexts=n).  steps: for next, stop after n yields.
     """
-    p, tp = new_path(policy, delimiter, quotechar)
+    p, tp = new_path(policy, delimiter, quotechar, print_default=print_default)
     lines = None
     exc = None
     with warnings.catch_warnings():
